@@ -102,7 +102,12 @@ func H_C18_last_wins() {
 // H_C18_neutral: neutral settings are no-ops.
 func H_C18_neutral() {
 	expr := exprsC18[vChoose(len(exprsC18))]
-	d := datumC18()
+	sd := datumC18()
+	var d interface{} = sd
+	if vBool() {
+		// the same document as plain maps and lists
+		d = map[string]interface{}{"a": sd.A, "L": sd.L, "W": map[string]interface{}{"k": sd.W.V["k"]}, "b": sd.B}
+	}
 	base, err0 := CreateEvaluator(expr)
 	vAssume(err0 == nil)
 	ob, _, _ := evalO(base, d)
